@@ -667,7 +667,8 @@ def seam_b_lists(res):
 
 # (callable objects without __name__ - functools.partial, instances with __call__ - are refused by
 # the declaration API itself with an AttributeError and are outside the documented domain)
-CALLABLE_KINDS = ("function", "lambda", "bound-method", "property-object")
+CALLABLE_KINDS = ("function", "lambda", "bound-method", "property-object",
+                  "listener-property-object")
 
 
 def callable_entries(res):
@@ -696,6 +697,14 @@ def callable_entries(res):
                     entry = lambda: flag.is_on()   # noqa: E731
                 elif kind == "bound-method":
                     entry = flag.is_on
+                elif kind == "listener-property-object":
+                    # the property belongs to the listener's class and is passed by reference;
+                    # the machine (an earlier provider) has a property of the same name with
+                    # the opposite constant value, which must not be consulted
+                    def is_on(self, flag=flag):
+                        return flag.is_on()
+                    LisP = type("LisP", (), {"is_on": property(is_on)})
+                    entry = LisP.is_on
                 else:
                     def is_on(self, flag=flag):
                         return flag.is_on()
@@ -704,6 +713,11 @@ def callable_entries(res):
                 ns = {"st_a": sa, "st_b": sb, "back": sb.to(sa)}
                 if kind == "property-object":
                     ns["is_on"] = entry      # a property of the class, passed by reference
+                if kind == "listener-property-object":
+                    def decoy(self, p=polarity):
+                        return p != "cond"
+                    decoy.__name__ = "is_on"
+                    ns["is_on"] = property(decoy)
                 if any_style:
                     ns["go"] = sb.from_.any(**{polarity: entry})
                 else:
@@ -711,7 +725,7 @@ def callable_entries(res):
                 sc = {"callable_entry": [kind, polarity, any_style]}
                 try:
                     cls = StateMachineMetaclass("MC8", (StateMachine,), ns)
-                    sm = cls()
+                    sm = cls(listeners=[LisP()]) if kind == "listener-property-object" else cls()
                 except Exception as e:   # noqa: BLE001
                     res.stats["evaluations"] += 1
                     res.violation({"category": "callable-entry-rejected", "kind": kind}, sc,
